@@ -203,6 +203,7 @@ func TestObjGen(t *testing.T) {
 						}
 						return obj, -1
 					}
+					churn := 0
 					A := start(on)
 					// a second fetch running at the same time (an application fetching two objects): when the first one is
 					// made to fail promptly, the second is kept waiting for its first segment until that has happened
@@ -284,6 +285,23 @@ func TestObjGen(t *testing.T) {
 							if os.Getenv("VERIF_DEBUG") == "2" {
 								o, sg := segOf(b)
 								fmt.Println("  step", step, "fed", o, sg, "replies", nrep, "now", time.Now().Format("15:04:05.000"))
+							}
+						}
+						// packets already handed to the face are in flight while the producer goes on writing to its store (other
+						// objects are published and withdrawn): what was sent must not change underneath
+						if len(replies) > 0 && churn < 12 && rng.Intn(3) == 0 {
+							for c := 0; c < 3; c++ {
+								churn++
+								junk := make([]byte, 7000+rng.Intn(3000))
+								for i := range junk {
+									junk[i] = byte(churn*31 + i)
+								}
+								if _, err := prod.cli.Produce(object.ProduceArgs{Name: nm("/zz/scratch"), Content: enc.Wire{junk}, Version: utils.IdPtr(uint64(churn))}); err != nil {
+									panic(err)
+								}
+								if churn > 1 {
+									store.Remove(append(nm("/zz/scratch"), enc.NewVersionComponent(uint64(churn-1))), true)
+								}
 							}
 						}
 						rng.Shuffle(len(replies), func(i, j int) { replies[i], replies[j] = replies[j], replies[i] })
